@@ -46,5 +46,13 @@ try:
 finally:
     subprocess.run(["git", "-C", "/repo", "worktree", "remove", "--force", wt], capture_output=True)
     subprocess.run(["git", "-C", "/repo", "worktree", "prune"], capture_output=True)
-json.dump(res, open(os.path.join(d, "result.json"), "w"), indent=1)
+rp = os.path.join(d, "result.json")
+if os.path.exists(rp):          # keep the verdicts of other properties' checks from earlier runs
+    try:
+        old = json.load(open(rp))
+        for k, v in old.get("checks", {}).items():
+            res["checks"].setdefault(k, v)
+    except Exception:
+        pass
+json.dump(res, open(rp, "w"), indent=1)
 print(json.dumps(res, indent=1))
